@@ -413,8 +413,52 @@ pub fn run(opts: &Opts) -> Report {
         }
     }
     complex_relative(&mut rep, &mut rng, if opts.thorough() { 4000 } else { 600 });
+    extreme_cursors(&mut rep);
     rep.extra.insert("max_text_len".into(), json!(maxlen));
     rep
+}
+
+/// cursors at the limits of the integer types, against a resource and relative to annotations that do not begin at 0
+/// (one and two levels deep): every such offset denotes no range of the text and must be refused — not wrap around, not panic
+fn extreme_cursors(rep: &mut Report) {
+    let text: String = (0..12).map(|i| ALPHABET[i % ALPHABET.len()]).collect();
+    let huge_b: Vec<usize> = vec![usize::MAX, usize::MAX - 1, usize::MAX - 3, usize::MAX - 6, usize::MAX - 12, usize::MAX / 2 + 1, (isize::MAX as usize), 1usize << 32];
+    // (positive end-aligned cursors are ill-formed input — documented as "0 or lower" — and not part of this stream)
+    let huge_e: Vec<isize> = vec![isize::MIN, isize::MIN + 1, isize::MIN + 6, -(1isize << 40)];
+    let normal = [Cursor::BeginAligned(0), Cursor::BeginAligned(2), Cursor::EndAligned(0), Cursor::EndAligned(-1)];
+    let mut extremes: Vec<Cursor> = huge_b.iter().map(|x| Cursor::BeginAligned(*x)).collect();
+    extremes.extend(huge_e.iter().map(|x| Cursor::EndAligned(*x)));
+    for parent in [None, Some(vec![(3usize, 9usize)]), Some(vec![(6, 11), (1, 4)]), Some(vec![(1, 12), (2, 9)])] {
+        for x in &extremes {
+            for nrm in &normal {
+                for (c1, c2) in [(*x, *nrm), (*nrm, *x), (*x, *x)] {
+                    let mut w = World::new(&text);
+                    // build the chain of parents (each relative to the previous one)
+                    let mut pid: Option<String> = None;
+                    let mut ok = true;
+                    if let Some(chain) = &parent {
+                        for (k, (b, e)) in chain.iter().enumerate() {
+                            let target = match &pid { None => SelectorBuilder::textselector("r", Offset::simple(*b, *e)), Some(p) => SelectorBuilder::annotationselector(p.clone(), Some(Offset::simple(*b, *e))) };
+                            let (id, r) = w.annotate(target);
+                            if !matches!(r, Ok(Some(_))) { ok = false; break; }
+                            pid = Some(id);
+                            let _ = k;
+                        }
+                    }
+                    if !ok { continue; }
+                    let target = match &pid { None => SelectorBuilder::textselector("r", Offset::new(c1, c2)), Some(p) => SelectorBuilder::annotationselector(p.clone(), Some(Offset::new(c1, c2))) };
+                    let (_, got) = w.annotate(target);
+                    let ctx = vec![format!("text={:?} offset {} {} {}", text, cur_str(&c1), cur_str(&c2), match &parent { None => "against the resource".to_string(), Some(c) => format!("relative to an annotation at {:?} (each range relative to the one before)", c) })];
+                    rep.case(Some(&ctx[0]));
+                    rep.count("extreme-cursors");
+                    // an end-aligned cursor > 0 or a cursor beyond the text: no range
+                    if got != Ok(None) {
+                        rep.fail(if got.is_err() { "panic" } else { "oracle" }, &format!("extreme-cursor/{}/{}", if parent.is_some() { "relative" } else { "resource" }, if got.is_err() { "panics" } else { "accepted" }), ctx, "refused with an error", &res_str(&got));
+                    }
+                }
+            }
+        }
+    }
 }
 
 /// complex selectors whose members are annotation selectors with offsets, on annotations created one after the other
